@@ -112,8 +112,8 @@ class Rule:
 
     def to_json_like(self, *args, **kwargs):
         cast = None
-        if self.cast:
-            # back to the type names that `from_spec` understands:
+        if self.cast is not None:
+            # back to the type names that `from_spec` understands (an empty mapping stays one):
             type_names = {v: k for k, v in CAST_DTYPE_LOOKUP.items()}
             cast_types = {v: k for k, v in CAST_LOOKUP.items()}
             cast = {
